@@ -99,6 +99,11 @@ func (e *Engine) lookupTypeByName(name string) types.Type {
 		ptr++
 		name = name[1:]
 	}
+	// the import alias used by most of the repository for the go-mysql library (files that import it under another
+	// name still need macros written with this one to resolve)
+	if strings.HasPrefix(name, "gomysql.") {
+		name = "github.com/go-mysql-org/go-mysql/mysql." + strings.TrimPrefix(name, "gomysql.")
+	}
 	t, ok := e.typeByName[name]
 	if !ok {
 		return nil
